@@ -52,6 +52,7 @@ func (x *Exec) verifyFunction(f *ssa.Function) (rep FuncReport) {
 		}
 	}()
 	st := x.baseState()
+	st.entryNext = st.next
 	x.curFn = f
 	var args []Val
 	for _, p := range f.Params {
